@@ -11,6 +11,8 @@ import (
 	"fmt"
 	"os"
 	"reflect"
+	"runtime"
+	"runtime/debug"
 	"strings"
 	"time"
 
@@ -52,6 +54,17 @@ type sObsT struct {
 	Panics  []string `json:"panics"`
 	Built   sType    `json:"built"`
 	Wrapped sType    `json:"wrapped"`
+	// Next: right after this declaration was checked, a sound declaration with the same names
+	// (probeStruct) is checked: what one call refuses or accepts is nothing to the next
+	Next string `json:"next"`
+}
+
+// probeStruct: a sound declaration that uses every json name the shapes use
+type probeStruct struct {
+	ID string `json:"id" api:"probe"`
+	A  string `json:"a" api:"attr"`
+	B  *int   `json:"b" api:"attr"`
+	C  string `json:"A" api:"rel,tt"`
 }
 
 type sEventT struct {
@@ -181,6 +194,14 @@ func runStructCase(c sCaseT) sEventT {
 		ev.Obs.Check = "err"
 	} else {
 		ev.Obs.Check = "ok"
+	}
+	var nerr error
+	if p, _ := catch(func() { nerr = jsonapi.Check(probeStruct{}) }); p {
+		ev.Obs.Next = "panic"
+	} else if nerr != nil {
+		ev.Obs.Next = "err"
+	} else {
+		ev.Obs.Next = "ok"
 	}
 	// BuildType
 	var typ jsonapi.Type
@@ -375,7 +396,13 @@ func structMain(args []string) {
 	}
 	w := newEvWriter(*out, 100000)
 	var recent, firstOK []sShape
-	for _, sh := range shapes {
+	// The collector empties the library's pools whenever it runs, which makes whatever a call leaves
+	// there for the next one a matter of timing.  It runs between blocks of cases only.
+	defer debug.SetGCPercent(debug.SetGCPercent(-1))
+	for i, sh := range shapes {
+		if i%4000 == 3999 {
+			runtime.GC()
+		}
 		c := sCaseT{Fam: "struct", Shape: sh}
 		w.Inflight(c)
 		ev := runStructCase(c)
